@@ -130,8 +130,75 @@ impl Property for C11 {
         }
         Ok(())
     }
+    fn extra(&self, tier: Tier, _seed: u64, st: &mut Stats) -> Result<(), (Failure, Value)> {
+        // small-scope exhaustive part: every ordered pair of small documents in two fixed surface forms
+        // (`<x/>`, text, no prolog  versus  `<x></x>`, CDATA, comments, PIs, prolog, DOCTYPE, other attribute values),
+        // all four combinations of forms over the two documents, second form also through a 1-byte chunked reader
+        let max_nodes = match tier {
+            Tier::Quick => 3,
+            Tier::Thorough => 4,
+        };
+        let (evals, nts, fail) = super::smallscope::run_tuples(max_nodes, 2, |docs, bytes| {
+            let alt: Vec<Vec<u8>> = docs.iter().map(|d| crate::xmlser::canonical_variant(d).into_bytes()).collect();
+            let base = sut::parse_seq(bytes).map_err(|(i, e)| format!("document #{} rejected: {}", i + 1, e))?;
+            let expect = base.to_serde_struct(&crate::sut::Options::quick_xml_de());
+            for mask in 1..4usize {
+                let seq: Vec<Vec<u8>> = (0..2).map(|i| if mask >> i & 1 == 1 { alt[i].clone() } else { bytes[i].clone() }).collect();
+                let cfg = ReaderCfg { kind: if mask == 3 { ReaderKind::Chunk(1) } else { ReaderKind::Slice }, expand_empty: mask == 2, trim_text: false, check_end_names: true };
+                let r = sut::parse_seq_with(&seq, &cfg).map_err(|(i, e)| format!("variant document #{} rejected: {}", i + 1, e))?;
+                let got = r.to_serde_struct(&crate::sut::Options::quick_xml_de());
+                if got != expect {
+                    return Err(format!("surface variant {:02b} of the same two structures renders differently:\n--- plain\n{}\n--- variant ({})\n{}", mask, expect, String::from_utf8_lossy(&seq.concat()), got));
+                }
+            }
+            Ok(true)
+        });
+        st.evaluations += evals;
+        st.nontrivial_enumerated += nts;
+        st.add("exhaustive.pairs_in_two_surface_forms", evals);
+        if let Some((e, docs)) = fail {
+            return Err((Failure::new(format!("small-scope exhaustive search: {}", e)).with_detail(json!({"documents": docs})), json!({"small_scope_documents": docs})));
+        }
+        Ok(())
+    }
+    fn replay_custom(&self, payload: &Value) -> Result<(), Failure> {
+        // the saved documents are in canonical form; rebuild the DOM with the mini parser of C03's replay by delegating the structural part
+        let docs: Vec<Vec<u8>> = payload["small_scope_documents"].as_array().map(|a| a.iter().map(|d| d.as_str().unwrap_or("").as_bytes().to_vec()).collect()).unwrap_or_default();
+        let base = sut::parse_seq(&docs).map_err(|(i, e)| Failure::new(format!("document #{} rejected: {}", i + 1, e)))?;
+        let expect = base.to_serde_struct(&crate::sut::Options::quick_xml_de());
+        // `<x/>` -> `<x></x>` is the rewrite that can be applied textually without a DOM
+        let alt: Vec<Vec<u8>> = docs
+            .iter()
+            .map(|d| {
+                let s = String::from_utf8_lossy(d).to_string();
+                let mut out = String::new();
+                let mut rest = s.as_str();
+                while let Some(i) = rest.find("/>") {
+                    let start = rest[..i].rfind('<').unwrap_or(0);
+                    let name: String = rest[start + 1..i].chars().take_while(|c| !c.is_whitespace()).collect();
+                    out.push_str(&rest[..i]);
+                    out.push_str(&format!("></{}>", name));
+                    rest = &rest[i + 2..];
+                }
+                out.push_str(rest);
+                out.into_bytes()
+            })
+            .collect();
+        for cfg in [ReaderCfg::default_slice(), ReaderCfg { kind: ReaderKind::Chunk(1), expand_empty: true, trim_text: false, check_end_names: true }] {
+            for seq in [&alt, &docs] {
+                let r = sut::parse_seq_with(seq, &cfg).map_err(|(i, e)| Failure::new(format!("variant document #{} rejected: {}", i + 1, e)))?;
+                if r.to_serde_struct(&crate::sut::Options::quick_xml_de()) != expect {
+                    return Err(Failure::new("surface variant of the saved documents renders differently"));
+                }
+            }
+        }
+        Ok(())
+    }
+    fn exhaustive(&self) -> bool {
+        true
+    }
     fn rule(&self) -> String {
-        "one tape-decoded structural model (document sequence, pools weighted towards colliding identifiers) is serialised twice with two independent surface tapes (attribute values, text content incl. blank vs non-blank, text vs CDATA, comments, PIs, declaration, DOCTYPE, BOM, `<x/>` vs `<x></x>`, whitespace in tags); variant B is additionally read through BufReader capacities 1..8192 or a chunked BufRead and optionally expand_empty_elements; renderings (arbitrary options) must be byte-identical. Non-trivial = the variants differ in an empty-element form or a text/CDATA swap and some struct has colliding field identifiers; distinct by hash of structure plus both byte variants.".into()
+        "small-scope exhaustive: every ordered pair of documents over {r; a,b; k; text} with <= 3 (thorough: 4) elements, each document in two fixed surface forms (all combinations, plus expand_empty_elements and a 1-byte chunked reader); sampled: one tape-decoded structural model (document sequence, pools weighted towards colliding identifiers) is serialised twice with two independent surface tapes (attribute values, text content incl. blank vs non-blank, text vs CDATA, comments, PIs, declaration, DOCTYPE, BOM, `<x/>` vs `<x></x>`, whitespace in tags); variant B is additionally read through BufReader capacities 1..8192 or a chunked BufRead and optionally expand_empty_elements; renderings (arbitrary options) must be byte-identical. Non-trivial = the variants differ in an empty-element form or a text/CDATA swap and some struct has colliding field identifiers; distinct by hash of structure plus both byte variants.".into()
     }
     fn assumptions(&self) -> Vec<String> {
         vec![
